@@ -527,6 +527,10 @@ func (rn *runner) runChain(cr *chainRef, cj *chainJob) {
 			c.Inconclusive("chain-crash-not-reproduced")
 			return
 		}
+		if poolClassCrash(r.Stderr) {
+			rn.notePoolClass("chain clause", cj.label, r.Stderr, wit(nil))
+			return
+		}
 		jj := &job{name: name}
 		sig := fmt.Sprintf("plugin=%s crash=%s msg=%s at=%s trigger=chain-only", sigPlugin(jj, r.Stderr, at), kind, msg, at)
 		fmt.Printf("finding: %s [chain %s]\n", sig, cj.label)
